@@ -17,6 +17,8 @@ pub struct GateCase {
     pub verify: bool,
     pub version: u8,
     pub position: usize,
+    /// which version / product texts the IS_VER carries (FrameSpec::VerText; 0 = "0.7F" / "S3")
+    pub text: u8,
 }
 
 pub struct AllVersions;
@@ -29,7 +31,7 @@ impl Part for AllVersions {
         let mode = if c.compressed { Mode::Compressed } else { Mode::Uncompressed };
         let others = [FrameSpec::Tiny(3, 1), FrameSpec::Tiny(4, 2)];
         let mut frames: Vec<FrameSpec> = others.to_vec();
-        frames.insert(c.position.min(2), FrameSpec::Ver(c.version));
+        frames.insert(c.position.min(2), FrameSpec::VerText(c.version, c.text));
         let mut stream = vec![];
         for f in &frames {
             stream.extend_from_slice(&frame_bytes(f, &mode));
@@ -73,10 +75,10 @@ impl Part for AllVersions {
         Ok(())
     }
     fn to_json(&self, c: &GateCase) -> Value {
-        json!({"compressed": c.compressed, "verify": c.verify, "version": c.version, "position": c.position})
+        json!({"compressed": c.compressed, "verify": c.verify, "version": c.version, "position": c.position, "text": c.text})
     }
     fn from_json(&self, v: &Value) -> Option<GateCase> {
-        Some(GateCase { compressed: v.get("compressed")?.as_bool()?, verify: v.get("verify")?.as_bool()?, version: v.get("version")?.as_u64()? as u8, position: v.get("position")?.as_u64()? as usize })
+        Some(GateCase { compressed: v.get("compressed")?.as_bool()?, verify: v.get("verify")?.as_bool()?, version: v.get("version")?.as_u64()? as u8, position: v.get("position")?.as_u64()? as usize, text: v.get("text").and_then(|t| t.as_u64()).unwrap_or(0) as u8 })
     }
 }
 
@@ -256,7 +258,10 @@ pub fn run(run: &mut Run) {
         for verify in [false, true] {
             for position in 0..3 {
                 for version in 0..=255u8 {
-                    cases.push(GateCase { compressed, verify, version, position });
+                    // texts: the usual short one; a version text that fills its 8 bytes; version and product both filling theirs
+                    for text in [0u8, 2, 15] {
+                        cases.push(GateCase { compressed, verify, version, position, text });
+                    }
                 }
             }
         }
